@@ -6,15 +6,21 @@ Runner subs                     clause subs reported by them
   C05.cutoff_type               C05.cutoff_type (row = centre type, column = neighbour type), ...
   C05.readback                  synthetic neighbour / weight files x row orders x Nmax
   C05.cursor                    breadth-first search over all sequences of read events on one open file
+  C05.sequence                  call words over complete argument tuples of the three writers + read_neighbors (round 4, L6)
+Round 4 slices inside C05.nnearest / cutoff / cutoff_type: unwrap (particles displaced by whole cell vectors, L7), zero (N = 0 / r_cut = 0
+passed explicitly, L8), face (a particle exactly on the upper box face, dyadic, L4); C05.argforms: more storage forms (L5).
 """
 import itertools
+import json
 import os
 
 import numpy as np
 
 from mc import alphabets as A
 from mc.harness import Result, Sub, digest
+from mc.ref import c03x as X3
 from mc.ref import c05x as X
+from mc.ref import c05y as Y
 from mc.ref import neigh as NB
 from mc.ref.base import mk_snaps
 
@@ -43,6 +49,20 @@ ASSUMPTIONS = [
     "rows of a frame may come in any order (the reader is id-indexed); files written by the library are only required to "
     "list every id once per frame",
     "f.tell() of a text file equals the character offset (ASCII files)",
+    "round 4 - unwrap slices (L7): particles displaced by 0 / +2 / -3 / +4 whole cell vectors along periodic axes (unwrapped xu coordinates) have "
+    "the same minimum-image distances; the reference reduces with floor(s + 1/2) on the displaced coordinates; margins are evaluated on them",
+    "round 4 - zero slices (L8): N = 0 passed explicitly means empty lists with cn = 0 (not the default 12); r_cut = 0 / 0.0 and an all-zero "
+    "(int or float) cutoff matrix mean that nobody is a neighbour",
+    "round 4 - face slice (L4): in the dyadic slice a particle may sit exactly on the upper face of the box (coordinate 8 = box edge); no two "
+    "particles coincide through the periodic image",
+    "round 4 - C05.argforms: bool / float masks, single-precision positions (coordinates rounded to float32 FIRST, canonical call = the same "
+    "numbers in float64; cases with a rank / cutoff margin < 1e-3 are screened because the separations are formed in float32), Fortran-ordered "
+    "cutoff matrix and h-matrix, uint8 species",
+    "round 4 - dilate slices (L9): the three writers are scale-free - coordinates, cell (edges AND tilts) and cutoffs multiplied by 2^-33 or 2^27 "
+    "(exact in binary floating point) must give the identical lists; reference, margins and thresholds are those of the undilated configuration",
+    "C05.sequence: a call must write / return bit for bit what the same call does when made first in a fresh process - whatever was computed "
+    "before, under the same file name, and also when the arrays of ONE Snapshots object are edited in place between the calls; L1 (options "
+    "ignored in a mode) and L3 (selections) have no counterpart in these routines",
 ]
 
 MARGIN = 1e-9
@@ -127,6 +147,15 @@ def dyadic_placements(d, tier):
     return out
 
 
+DILATE = (-33, 27)    # (round 4, L9) exponents of the exact binary dilations (SI-like 1e-10 and 1e8 length units)
+
+
+def upper_face(pts, axis):
+    """dyadic placement with the coordinate 0 (lower face) of `axis` replaced by 8 = the box edge (upper face); differences stay in
+    {1, 2, 5, 7}: no half-cell tie, no coincident particles"""
+    return [[8.0 if (a == axis and x == 0.0) else x for a, x in enumerate(p)] for p in pts]
+
+
 def more_frames(seed, base, F, d, tag):
     fr = [np.array(base, float)]
     for f in range(1, F):
@@ -180,6 +209,21 @@ def gen_nnearest(tier, seed):
                                     for cm in ("orth_first", "orth_later"):
                                         yield {"kind": "nn", "slice": name, "d": d, "cell": cell, "H": H.tolist(), "H_frames": varying_cells(H, F, cm),
                                                "cellseq": cm, "ppp": mask, "frames": frames, "N": N}
+                            if any(mask) and (pi % 3 == 0 or F > 1):
+                                # (round 4, L7) unwrapped coordinates: particles displaced by +2 / -3 / +4 whole cell vectors along periodic axes
+                                yield {"kind": "nn", "slice": name, "d": d, "cell": cell, "H": H.tolist(), "ppp": mask, "frames": frames, "N": N, "unwrap": True}
+                                if F > 1:
+                                    yield {"kind": "nn", "slice": name, "d": d, "cell": cell, "H": H.tolist(), "H_frames": varying_cells(H, F), "ppp": mask,
+                                           "frames": frames, "N": N, "unwrap": True}
+                        if pi % 3 == 1 or F > 1:
+                            # (round 4, L9) the whole configuration (coordinates, cell incl. tilts) dilated by 2^-33 / 2^27: identical lists
+                            for e in DILATE:
+                                for N in range(1, len(pts)):
+                                    c = {"kind": "nn", "slice": name, "d": d, "cell": cell, "H": H.tolist(), "ppp": mask, "frames": frames, "N": N, "dilate": e}
+                                    yield dict(c, H_frames=varying_cells(H, F)) if F > 1 else c
+                        if F == 1 and pi % 4 == 0:
+                            # (round 4, L8) N = 0 passed explicitly: empty lists, not the default N = 12
+                            yield {"kind": "nn", "slice": name, "d": d, "cell": cell, "H": H.tolist(), "ppp": mask, "frames": frames, "N": 0, "zero": True}
         big = large_placement(seed, d)
         for cell, mask in LARGE_GEOMS[d]:
             for N in ((1, 6, 12, len(big) - 1) if tier == "quick" else range(1, len(big))):
@@ -194,6 +238,13 @@ def gen_nnearest(tier, seed):
                     for N in range(1, len(pts)):
                         yield {"kind": "nn", "slice": "dyadic", "d": d, "cell": cell, "H": H.tolist(), "ppp": mask,
                                "frames": [pts], "N": N}
+                for k, pts in enumerate(dp[::4]):
+                    for N in range(1, len(pts)):
+                        if any(mask):
+                            yield {"kind": "nn", "slice": "dyadic", "d": d, "cell": cell, "H": H.tolist(), "ppp": mask, "frames": [pts], "N": N, "unwrap": True}
+                        # (round 4, L4) the particles with coordinate 0 on one axis sit exactly on the UPPER face of that axis instead
+                        yield {"kind": "nn", "slice": "dyadic", "d": d, "cell": cell, "H": H.tolist(), "ppp": mask, "frames": [upper_face(pts, k % d)], "N": N,
+                               "face": True}
 
 
 def gen_cutoff(tier, seed):
@@ -219,6 +270,20 @@ def gen_cutoff(tier, seed):
                                     for cm in ("orth_first", "orth_later"):
                                         yield {"kind": "cut", "slice": name, "d": d, "cell": cell, "H": H.tolist(), "H_frames": varying_cells(H, F, cm),
                                                "cellseq": cm, "ppp": mask, "frames": frames, "rc": rc}
+                        if any(mask) and (pi % 3 == 0 or F > 1):
+                            for rc in (rcs[1:-1:2] if F == 1 else rcs[1:-1:3]):     # (round 4, L7) unwrapped coordinates
+                                yield {"kind": "cut", "slice": name, "d": d, "cell": cell, "H": H.tolist(), "ppp": mask, "frames": frames, "rc": rc, "unwrap": True}
+                                if F > 1:
+                                    yield {"kind": "cut", "slice": name, "d": d, "cell": cell, "H": H.tolist(), "H_frames": varying_cells(H, F), "ppp": mask,
+                                           "frames": frames, "rc": rc, "unwrap": True}
+                        if pi % 3 == 1 or F > 1:
+                            for e in DILATE:         # (round 4, L9) coordinates, cell and cutoff dilated by 2^-33 / 2^27: identical lists
+                                for rc in (rcs[1:-1:2] if F == 1 else rcs[1:-1:3]):
+                                    c = {"kind": "cut", "slice": name, "d": d, "cell": cell, "H": H.tolist(), "ppp": mask, "frames": frames, "rc": rc, "dilate": e}
+                                    yield dict(c, H_frames=varying_cells(H, F)) if F > 1 else c
+                        if F == 1 and pi % 4 == 0:
+                            for rc in (0, 0.0):      # (round 4, L8) an explicit zero cutoff: nobody is a neighbour
+                                yield {"kind": "cut", "slice": name, "d": d, "cell": cell, "H": H.tolist(), "ppp": mask, "frames": frames, "rc": rc, "zero": True}
         big = large_placement(seed, d)
         for cell, mask in LARGE_GEOMS[d]:
             H = cell_for(d, cell)
@@ -234,6 +299,13 @@ def gen_cutoff(tier, seed):
                     for rc in NB.pair_distances(D):  # r_cut EQUALS a pair distance: the boundary is inclusive
                         yield {"kind": "cut", "slice": "dyadic", "d": d, "cell": cell, "H": H.tolist(), "ppp": mask,
                                "frames": [pts], "rc": rc}
+                for k, pts in enumerate(dp[::4]):
+                    if any(mask):
+                        for rc in NB.pair_distances(NB.dist_table(pts, H, mask)):
+                            yield {"kind": "cut", "slice": "dyadic", "d": d, "cell": cell, "H": H.tolist(), "ppp": mask, "frames": [pts], "rc": rc, "unwrap": True}
+                    fp = upper_face(pts, k % d)
+                    for rc in NB.pair_distances(NB.dist_table(fp, H, mask)):
+                        yield {"kind": "cut", "slice": "dyadic", "d": d, "cell": cell, "H": H.tolist(), "ppp": mask, "frames": [fp], "rc": rc, "face": True}
 
 
 _PATTERNS = {}
@@ -302,11 +374,22 @@ def gen_cutoff_type(tier, seed):
                         for cm in ("orth_first", "orth_later"):
                             yield {"kind": "type", "slice": "jl", "d": d, "cell": cell, "H": H.tolist(), "H_frames": varying_cells(H, 3, cm), "cellseq": cm,
                                    "ppp": mask, "frames": more_frames(seed, pts, 3, d, f"ty{d}"), "types": types, "R": Rm}
+                    for e in (DILATE if types[0] == 1 and types[-1] == 2 else ()):   # (round 4, L9) coordinates, cells and cutoff matrix dilated by 2^-33 / 2^27
+                        yield {"kind": "type", "slice": "jl", "d": d, "cell": cell, "H": H.tolist(), "H_frames": varying_cells(H, 3), "ppp": mask,
+                               "frames": more_frames(seed, pts, 3, d, f"ty{d}"), "types": types, "R": Rm, "dilate": e}
+                    if any(mask):      # (round 4, L7) unwrapped coordinates, the cell changing per frame
+                        yield {"kind": "type", "slice": "jl", "d": d, "cell": cell, "H": H.tolist(), "H_frames": varying_cells(H, 3), "ppp": mask,
+                               "frames": more_frames(seed, pts, 3, d, f"ty{d}"), "types": types, "R": Rm, "unwrap": True}
                     if not is_open("C05.cutoff_type.types_vary"):
                         # the species attached to the ids change from frame to frame (same composition, rotated assignment)
                         yield {"kind": "type", "slice": "jl", "d": d, "cell": cell, "H": H.tolist(), "ppp": mask,
                                "frames": more_frames(seed, pts, 3, d, f"ty{d}"), "types": types,
                                "types_frames": [types[f:] + types[:f] for f in range(3)], "R": Rm}
+            # (round 4, L8) an explicit all-zero cutoff matrix (int and float storage)
+            for types in A.surjections(4, 2):
+                for zdt in ("int", "float"):
+                    yield {"kind": "type", "slice": "jl", "d": d, "cell": cell, "H": H.tolist(), "ppp": mask, "frames": [pts], "types": types,
+                           "R": [[0, 0], [0, 0]] if zdt == "int" else [[0.0, 0.0], [0.0, 0.0]], "zero": True, "R_int": zdt == "int"}
     # dyadic: matrix entries EQUAL to pair distances
     d = 2
     dp = dyadic_placements(2, "quick")
@@ -339,7 +422,7 @@ def call_library(case, snaps, fn):
     elif case["kind"] == "cut":
         cutoffneighbors(snaps, r_cut=case["rc"], ppp=ppp, fnfile=fn)
     else:
-        cutoffneighbors_particletype(snaps, r_cut=np.array(case["R"], float), ppp=ppp, fnfile=fn)
+        cutoffneighbors_particletype(snaps, r_cut=np.array(case["R"], int if case.get("R_int") else float), ppp=ppp, fnfile=fn)
 
 
 def thresholds(case, n):
@@ -373,6 +456,14 @@ def run_calc(case):
     Hf = [np.array(h, float) for h in case["H_frames"]] if case.get("H_frames") else [H] * len(frames)
     if case.get("H_frames"):
         sig["cell_varies"] = case.get("cellseq", True)
+    for k in ("unwrap", "zero", "face"):
+        if case.get(k):
+            sig[k] = True
+    dil = 2.0 ** case["dilate"] if case.get("dilate") else 1.0
+    if case.get("dilate"):
+        sig["dilate"] = "tiny" if case["dilate"] < 0 else "huge"
+    if case.get("unwrap"):
+        frames = Y.unwrap(frames, Hf, ppp)
     tables = [NB.dist_table(p, h, ppp) for p, h in zip(frames, Hf)]
     # ---- margins: screen BEFORE the implementation runs
     if sl != "dyadic":
@@ -384,9 +475,14 @@ def run_calc(case):
                 m = min(m, NB.geometry_margin(p, h, ppp))
             if m < MARGIN:
                 return R.screen()
-    snaps = mk_snaps(frames, np.array(Hf) if case.get("H_frames") else H, tf if case.get("types_frames") else types)
+    # the reference lists, margins and thresholds are those of the UNDILATED configuration: a dilation by a power of two is exact in
+    # binary floating point, so every distance scales exactly and the lists must be identical
+    snaps = mk_snaps([p * dil for p in frames], (np.array(Hf) if case.get("H_frames") else H) * dil, tf if case.get("types_frames") else types)
     before = [s.positions.copy() for s in snaps.snapshots]
-    call_library(case, snaps, FN)
+    lib_case = case
+    if dil != 1.0:
+        lib_case = dict(case, **({"rc": case["rc"] * dil} if kind == "cut" else ({"R": (np.array(case["R"], float) * dil).tolist()} if kind == "type" else {})))
+    call_library(lib_case, snaps, FN)
     with open(FN) as f:
         text = f.read()
     parsed, problems = NB.parse_listfile(text)
@@ -933,7 +1029,10 @@ def run_scale(case):
 # The documentation allows `ppp` "setting 1 for yes and 0 for no" (any sequence), integer-valued cutoffs and counts of any integer
 # type; arrays may have any memory layout.  Differential oracle: the file written for a variant form must be byte-identical to the
 # file written for the canonical form (float64 C-ordered arrays, ndarray ppp, python scalars), which the other sub-checks verify.
-ARGFORMS = ["ppp_list", "ppp_tuple", "pos_fortran", "pos_noncontiguous", "types_int32", "scalar_numpy", "cutoff_int"]
+ARGFORMS = ["ppp_list", "ppp_tuple", "pos_fortran", "pos_noncontiguous", "types_int32", "scalar_numpy", "cutoff_int",
+            # round 4 (L5)
+            "ppp_bool", "ppp_float", "pos_float32", "rcut_fortran", "hmatrix_fortran", "types_uint8"]
+F32_MARGIN = 1e-3   # single-precision positions: the pair separations are formed in float32 (relative error 1e-7 x coordinate)
 
 
 def gen_argforms(tier, seed):
@@ -958,6 +1057,10 @@ def run_argforms(case):
     d, kind, form = case["d"], case["kind"], case["form"]
     H = np.array(case["H"], float)
     frames = [np.array(f, float) for f in case["frames"]]
+    if form == "pos_float32":
+        # the coordinates are rounded to single precision FIRST: the canonical call (float64 storage) and the variant (float32 storage)
+        # hold the same numbers
+        frames = [np.array(f, np.float32).astype(float) for f in frames]
     n = len(frames[0])
     types = case.get("types") or [1] * n
     sig = {"kind": kind, "d": d, "cell": case["cell"], "form": form}
@@ -967,7 +1070,7 @@ def run_argforms(case):
         m = min(NB.rank_margin(D), NB.self_margin(D), NB.geometry_margin(p, H, case["ppp"]) if case["cell"] != "orth" else 1.0)
         if thr is not None:
             m = min(m, NB.cut_margin(D, thr))
-        if m < MARGIN:
+        if m < (F32_MARGIN if form == "pos_float32" else MARGIN):
             return R.screen()
 
     def call(snaps, ppp, N, rc, Rm, fn):
@@ -986,20 +1089,33 @@ def run_argforms(case):
         ppp = list(case["ppp"])
     elif form == "ppp_tuple":
         ppp = tuple(case["ppp"])
-    elif form in ("pos_fortran", "pos_noncontiguous", "types_int32"):
+    elif form == "ppp_bool":
+        ppp = np.array(case["ppp"], dtype=bool)
+    elif form == "ppp_float":
+        ppp = np.array(case["ppp"], dtype=float)
+    elif form == "rcut_fortran":
+        Rm = np.asfortranarray(Rm)
+    elif form in ("pos_fortran", "pos_noncontiguous", "types_int32", "pos_float32", "hmatrix_fortran", "types_uint8"):
         new = []
         for sn in snaps.snapshots:
             pos = sn.positions
             ty = sn.particle_type
+            hm = sn.hmatrix
             if form == "pos_fortran":
                 pos = np.asfortranarray(pos)
             elif form == "pos_noncontiguous":
                 wide = np.zeros((n, 2 * d))
                 wide[:, ::2] = pos
                 pos = wide[:, ::2]
+            elif form == "pos_float32":
+                pos = pos.astype(np.float32)
+            elif form == "hmatrix_fortran":
+                hm = np.asfortranarray(hm)
+            elif form == "types_uint8":
+                ty = np.asarray(ty, dtype=np.uint8)
             else:
                 ty = np.asarray(ty, dtype=np.int32)
-            new.append(type(sn)(sn.timestep, sn.nparticle, ty, pos, sn.boxlength, sn.boxbounds, sn.realbounds, sn.hmatrix))
+            new.append(type(sn)(sn.timestep, sn.nparticle, ty, pos, sn.boxlength, sn.boxbounds, sn.realbounds, hm))
         snaps = Snapshots(len(new), new)
     elif form == "scalar_numpy":
         N = None if N is None else np.int64(N)
@@ -1037,26 +1153,88 @@ def run_argforms(case):
     return R
 
 
+# ---------------------------------------------------------------------------------------------- C05.sequence (round 4, L6)
+# Letters (mc/ref/c05y.py) are complete argument tuples of Nnearests / cutoffneighbors / cutoffneighbors_particletype followed by
+# read_neighbors of the written file (every letter uses the SAME file name); pairs collide in plausible incomplete cache keys: same cell
+# diagonal / other tilt, same snapshots / other N or cutoff, 3D then 2D, other mask, same (nframes, nparticle, ndim) / other positions,
+# transposed cutoff matrix, same matrix / species swapped, a weights file under the name of a neighbour file.
+def gen_sequence(tier, seed):
+    depth = 2 if tier == "quick" else 3
+    nl = len(Y.SEQ_LETTERS)
+    for Lw in range(1, depth + 1):
+        for word in itertools.product(range(nl), repeat=Lw):
+            if Lw == 3 and (len(set(word)) == 1 or (word[0] + 2 * word[1] + 3 * word[2]) % 3):
+                continue    # depth 3: every third word (each ordered pair still occurs as a prefix and as a suffix)
+            for share in ((False,) if Lw == 1 else (False, True)):
+                yield {"part": "sequence", "word": list(word), "share": share, "seed": seed}
+
+
+_SEQ_FRESH = {}
+
+
+def run_sequence(case):
+    R = Result()
+    seed = case["seed"]
+    names = [Y.SEQ_LETTERS[k]["id"] for k in case["word"]]
+    payload = X3.fresh_child(Y.seq_eval, case, Y.SEQ_MODS)
+    if "err" in payload:
+        R.fail(f"call sequence {names} (share={case['share']}) raised {payload['err']}", sig={"part": "sequence", "exception": True}, sub="C05.sequence")
+        return R
+    for k in set(case["word"]):
+        if (seed, k) not in _SEQ_FRESH:
+            one = X3.fresh_child(Y.seq_eval, {"seed": seed, "word": [k], "share": False}, Y.SEQ_MODS)
+            if "err" in one:
+                R.fail(f"single call {Y.SEQ_LETTERS[k]['id']} raised {one['err']}", sig={"part": "sequence", "exception": True}, sub="C05.sequence")
+                return R
+            _SEQ_FRESH[(seed, k)] = json.dumps(one["ok"][0], sort_keys=True)
+    states = set()
+    for pos_, (k, got) in enumerate(zip(case["word"], payload["ok"])):
+        lt = Y.SEQ_LETTERS[k]
+        g = json.dumps(got, sort_keys=True)
+        if g != _SEQ_FRESH[(seed, k)]:
+            ref = json.loads(_SEQ_FRESH[(seed, k)])
+            what = "file written" if got["text"] != ref["text"] else "table returned by read_neighbors"
+            R.fail(f"call #{pos_ + 1} ({lt['id']}: {lt['kind']}) of the sequence {names} ({'Snapshots object shared and edited in place' if case['share'] else 'fresh objects'}): "
+                   f"{what} differs from the same call made first in a fresh process (earlier calls: {names[:pos_]})",
+                   sig={"part": "sequence", "kind": lt["kind"], "position": "later" if pos_ else "first", "share": case["share"],
+                        "what": "file" if got["text"] != ref["text"] else "read"},
+                   exp=ref["text"][:300], obs=got["text"][:300], sub="C05.sequence")
+        states.add(g[:4000])
+    R.outcome(sorted(states))
+    R.states = len(case["word"]) + 1
+    R.transitions = len(case["word"])
+    R.elem = len(case["word"]) * Y.SEQ_NP * Y.SEQ_F
+    R.nontrivial = True
+    return R
+
+
 # ---------------------------------------------------------------------------------------------- registry
 def subs(tier, seed):
     conf = ("all N-subsets (N=2..%d) of %d sites of a jittered 3^d lattice + cluster + gas, d in {2,3}, cells {orth, tri+, tri-}, "
             "all periodicity masks, F=1 (F=3 on every 4th placement with the fully periodic mask); one 25 (2D) / 27 (3D) particle placement in 3 geometries") % ((7, 7) if tier == "thorough" else (6, 6))
     dy = ("; dyadic slice: all 3-,4-%s subsets of 9 (2D) / 8 (3D) lattice sites with coordinates in {0,1,6}, box 8, {orth, tilt 2}, all masks"
           % ("" if tier == "quick" else ",5-"))
+    R4 = ("round 4: unwrapped variants (particle i displaced by 0 / +2 / -3 / +4 whole cell vectors per periodic axis, different per particle, "
+          "axis and frame) of every 3rd placement, of the F=3 files (constant and per-frame cells) and of every 4th dyadic placement; dyadic "
+          "placements with the coordinate 0 of one axis moved to the UPPER box face (8); every 3rd placement (+ the F=3 files with per-frame cells) "
+          "with coordinates, cell (edges and tilts) and cutoffs dilated by 2^-33 and 2^27 - identical lists demanded")
     s = [
         Sub("C05.nnearest", gen_nnearest, run_calc,
-            rule=conf + ", every N in 1..N_p-1 (top value = all other particles)" + dy + " with every N; non-trivial = some list non-empty",
-            bounds={"Np": [2, 7 if tier == "thorough" else 6], "N": "1..Np-1", "frames": [1, 3]}),
+            rule=conf + ", every N in 1..N_p-1 (top value = all other particles)" + dy + " with every N; " + R4 + "; N = 0 passed explicitly on every "
+            "4th placement; non-trivial = some list non-empty",
+            bounds={"Np": [2, 7 if tier == "thorough" else 6], "N": "0..Np-1", "frames": [1, 3], "unwrap_cells": [-3, 4]}),
         Sub("C05.cutoff", gen_cutoff, run_calc,
             rule=conf + ", r_cut = below / every mid-point between consecutive sorted pair distances / above (every coordination "
-            "pattern incl. cn=0)" + dy + " with r_cut EQUAL to every distinct pair distance (bit-exact, boundary inclusive)",
-            bounds={"Np": [2, 7 if tier == "thorough" else 6], "rcut": "all mid-points + exact pair distances"}),
+            "pattern incl. cn=0)" + dy + " with r_cut EQUAL to every distinct pair distance (bit-exact, boundary inclusive); " + R4
+            + "; r_cut = 0 and 0.0 passed explicitly on every 4th placement",
+            bounds={"Np": [2, 7 if tier == "thorough" else 6], "rcut": "0, all mid-points + exact pair distances", "unwrap_cells": [-3, 4]}),
         Sub("C05.cutoff_type", gen_cutoff_type, run_calc,
             rule="all surjective type maps of N_p particles onto K species x cutoff matrices over three levels (nobody / half / everybody): "
             + ("K=1, K=2 all 81 matrices (N_p=3,4), K=3 all matrices with <= 2 (N_p=3; 163) / <= 1 (N_p=4; 19) entries off the middle level"
                if tier == "quick" else "K=1, K=2 all 81 (N_p=3,4,5), K=3 all 2^9 matrices over {half,everybody} and over {nobody,half}")
             + "; 4 geometries per d (orth/tri, periodic/masked); 3-frame files; dyadic 2D slice with matrix entries EQUAL to pair distances "
-            "(3^4 matrices x 3 type maps); asymmetric matrices included throughout",
+            "(3^4 matrices x 3 type maps); asymmetric matrices included throughout; round 4: 3-frame files with the cell changing per frame and "
+            "particles displaced by whole cell vectors (unwrapped); all-zero int / float matrices",
             bounds={"K": [1, 3], "levels": 3}),
         Sub("C05.readback", gen_readback, run_readback,
             rule="synthetic files: n=3 all 125 topologies of ordered lists x all 6 row orders x 4 headers (2 neighbour, 2 weight) x Nmax in "
@@ -1084,9 +1262,18 @@ def subs(tier, seed):
             bounds={"Np": SCALE_NP[tier], "N": SCALE_NN, "F": [1, 3]}),
         Sub("C05.argforms", gen_argforms, run_argforms,
             rule="documented argument forms: 5 particles, 2 frames, d in {2,3}, 3 geometries, {N-nearest, global cutoff, type-pair cutoff} x forms "
-            + str(ARGFORMS) + " (ppp as list / tuple, Fortran-ordered and non-contiguous position arrays, int32 species, numpy scalars for N / "
-            "r_cut, integer cutoffs); differential oracle: file byte-identical to the canonical call (ndarray ppp, float64 C-ordered, python "
+            + str(ARGFORMS) + " (ppp as list / tuple / bool / float array, Fortran-ordered, non-contiguous and single-precision position arrays, "
+            "int32 / uint8 species, numpy scalars for N / r_cut, integer cutoffs, Fortran-ordered cutoff matrix and h-matrix); differential oracle: file byte-identical to the canonical call (ndarray ppp, float64 C-ordered, python "
             "scalars); read_neighbors with numpy integers for nparticle / Nmax; non-trivial = some list non-empty",
             bounds={"forms": len(ARGFORMS)}),
+        Sub("C05.sequence", gen_sequence, run_sequence,
+            rule=f"explicit-state search over call words of length <= {2 if tier == 'quick' else 3} over {len(Y.SEQ_LETTERS)} complete argument tuples (a writer + "
+            "read_neighbors of both frames of the file it wrote, all under ONE file name): N-nearest (orth / tilted cell of the same diagonal, N = 2 / 3 "
+            "with a truncating read, 2D, a mask with a 0, other positions of the same shape), global cutoff (two values, tilted cell), type-pair cutoff "
+            "(asymmetric matrix, its transpose, species swapped), a weights file under the same name; every word with fresh Snapshots objects and with "
+            "ONE Snapshots object per dimension whose arrays (positions, hmatrix, particle_type) are edited in place between the calls; every word in a "
+            "forked child whose library modules were re-imported; every call must write / return bit for bit what the same call does when made "
+            "first in a fresh child" + ("" if tier == "quick" else "; depth 3: every third word"),
+            bounds={"letters": len(Y.SEQ_LETTERS), "depth": 2 if tier == "quick" else 3, "sharing": 2}),
     ]
     return s
